@@ -118,3 +118,60 @@ func (m *PMap) Keys() []int64 {
 func sortInt64(a []int64) {
 	sort.Slice(a, func(i, j int) bool { return a[i] < a[j] })
 }
+
+// DiffKeys returns the keys on which a and b differ (present in only one, or with different
+// values), exploiting structural sharing; ok=false if there are more than limit such keys.
+func DiffKeys(a, b *PMap, limit int) (keys []int64, ok bool) {
+	var ra, rb *pnode
+	if a != nil {
+		ra = a.root
+	}
+	if b != nil {
+		rb = b.root
+	}
+	ok = true
+	var rec func(x, y *pnode, l int)
+	rec = func(x, y *pnode, l int) {
+		if x == y || !ok {
+			return
+		}
+		if l == pmapLevels {
+			seen := map[uint64]bool{}
+			if x != nil {
+				for u, v := range x.leaf {
+					seen[u] = true
+					var w *Term
+					if y != nil {
+						w = y.leaf[u]
+					}
+					if w != v {
+						keys = append(keys, int64(u>>1)^-int64(u&1))
+					}
+				}
+			}
+			if y != nil {
+				for u := range y.leaf {
+					if !seen[u] {
+						keys = append(keys, int64(u>>1)^-int64(u&1))
+					}
+				}
+			}
+			if len(keys) > limit {
+				ok = false
+			}
+			return
+		}
+		for i := 0; i < 32; i++ {
+			var cx, cy *pnode
+			if x != nil {
+				cx = x.kids[i]
+			}
+			if y != nil {
+				cy = y.kids[i]
+			}
+			rec(cx, cy, l+1)
+		}
+	}
+	rec(ra, rb, 0)
+	return keys, ok
+}
